@@ -9,6 +9,9 @@ import (
 	"encoding/hex"
 	"errors"
 	"fmt"
+	"runtime"
+	"strconv"
+	"strings"
 	"sync"
 	"time"
 
@@ -66,6 +69,7 @@ type Call struct {
 	Amount       uint64
 	FeeLimit     uint64
 	Answer       string
+	G            int64 // goroutine that made the call (lets a harness attribute a payment attempt to a request)
 }
 
 type LN struct {
@@ -383,7 +387,7 @@ func (c *Client) pay(method, request string, amountSat, maxFee uint64, partial b
 	}
 	if _, forged := c.l.Forged[request]; forged {
 		// the payee of a forged invoice is a throw-away key nobody routes to: the payment can only fail
-		c.l.Calls = append(c.l.Calls, Call{Mint: c.name, Method: method, Hash: hash, Amount: amountSat, FeeLimit: maxFee, Answer: "Failed"})
+		c.l.Calls = append(c.l.Calls, Call{G: gid(), Mint: c.name, Method: method, Hash: hash, Amount: amountSat, FeeLimit: maxFee, Answer: "Failed"})
 		if q := c.l.Payments[hash]; q == nil {
 			c.l.Payments[hash] = &Payment{Hash: hash, Payer: c.name, Status: Failed, Attempts: 1, PayAnswer: Failed}
 		}
@@ -396,12 +400,12 @@ func (c *Client) pay(method, request string, amountSat, maxFee uint64, partial b
 	}
 	if p.Status == Succeeded && p.Attempts > 0 {
 		// paying an already paid invoice again: a real node refuses; keep the ledger, answer Failed.
-		c.l.Calls = append(c.l.Calls, Call{Mint: c.name, Method: method, Hash: hash, Amount: amountSat, FeeLimit: maxFee, Answer: "AlreadyPaid"})
+		c.l.Calls = append(c.l.Calls, Call{G: gid(), Mint: c.name, Method: method, Hash: hash, Amount: amountSat, FeeLimit: maxFee, Answer: "AlreadyPaid"})
 		return lightning.PaymentStatus{PaymentStatus: lightning.Failed, PaymentFailureReason: "already paid"}, nil
 	}
 	p.Attempts++
 	p.Amount, p.AmountMsat, p.FeeLimit, p.PayAnswer = amountSat, amountMsat, maxFee, ans
-	c.l.Calls = append(c.l.Calls, Call{Mint: c.name, Method: method, Hash: hash, Amount: amountSat, FeeLimit: maxFee, Answer: ans.String()})
+	c.l.Calls = append(c.l.Calls, Call{G: gid(), Mint: c.name, Method: method, Hash: hash, Amount: amountSat, FeeLimit: maxFee, Answer: ans.String()})
 	inv := c.l.Invoices[hash]
 	pre := "00"
 	if inv != nil {
@@ -600,4 +604,16 @@ func (l *LN) PayCalls() int {
 		}
 	}
 	return n
+}
+
+// gid returns the current goroutine's id.
+func gid() int64 {
+	var buf [64]byte
+	n := runtime.Stack(buf[:], false)
+	f := strings.Fields(string(buf[:n]))
+	if len(f) < 2 {
+		return 0
+	}
+	id, _ := strconv.ParseInt(f[1], 10, 64)
+	return id
 }
